@@ -564,7 +564,7 @@ fn run_c08(ctx: &Ctx) -> i32 {
     let b1 = free_batch("C08", &C08_MACHINES, n_small, SizeClass::Small, ctx.seed, "free/small(2..64 records)");
     let b2 = if b1.violations.is_empty() { free_batch("C08", &C08_MACHINES, n_med, SizeClass::Medium, ctx.seed ^ 0x11, "free/medium(2..4096 records)") } else { Batch::default() };
     // long streams: "independent of the number of terms"
-    let (n_long, pow) = if thorough { (400u64, 7u32) } else { (48u64, 6u32) };
+    let (n_long, pow) = if thorough { (600u64, 7u32) } else { (96u64, 6u32) };
     let seed = ctx.seed;
     let b3: Batch<Art> = if b1.violations.is_empty() && b2.violations.is_empty() {
         runner::run_batch("long streams (10^5 .. 10^6 quick / 10^7 thorough records, 1 .. 10^5 chunks)", n_long, true, move |j, stats| {
